@@ -143,7 +143,21 @@ func (prop) Generate(rng *sim.Rng, tier string, runIndex int) driver.Scenario {
 		sc.Entries = append(sc.Entries, Entry{Name: pre(dotSlash, nm), T: "f", Len: ln, Fill: rng.Intn(256)})
 	}
 	if odd {
-		switch rng.Intn(5) {
+		switch rng.Intn(7) {
+		case 5:
+			// names with backslashes: on this platform one path component, nothing
+			// to split - an extractor that "normalises" them after its guard escapes
+			bs := []string{"..\\..\\..\\..\\bs-evil", top + "..\\..\\..\\..\\..\\bs-evil2", "a\\..\\..\\..\\..\\bs-evil3", top + "dir\\file.txt"}[rng.Intn(4)]
+			sc.Entries = append(sc.Entries, Entry{Name: bs, T: "f", Len: rng.Intn(40) + 1, Fill: 0x42})
+		case 6:
+			// a hard link to something outside the destination (the sibling tree's
+			// file exists), sometimes followed by a regular entry of the same name
+			// that would be written through it
+			tgt := []string{"../../../../outside", "../sdk-other/keep.txt", "../../sdk-other/keep.txt", top + "../../sdk-other/keep.txt"}[rng.Intn(4)]
+			sc.Entries = append(sc.Entries, Entry{Name: top + "alias", T: "h", Link: tgt})
+			if rng.Bool() {
+				sc.Entries = append(sc.Entries, Entry{Name: top + "alias", T: "f", Len: 5, Fill: 0x50})
+			}
 		case 0: // duplicate with different length: the last entry wins
 			e := sc.Entries[len(sc.Entries)-1]
 			sc.Entries = append(sc.Entries, Entry{Name: e.Name, T: "f", Len: e.Len / 2, Fill: e.Fill + 1})
@@ -250,6 +264,12 @@ func classify(sc *Scenario) (k klass, want map[string][]byte, wantDirs map[strin
 		}
 		if path.IsAbs(e.Name) {
 			// re-rooted below the destination or rejected: both are fine
+			k.illform = true
+			continue
+		}
+		if strings.Contains(e.Name, "\\") {
+			// a backslash is an ordinary character of a file name here: no requirement on
+			// what an extractor makes of such a name, except that it stays inside
 			k.illform = true
 			continue
 		}
